@@ -24,7 +24,9 @@
        grows by on_pipeline_complete callbacks only (C14_on_plain_programs_pipeline_complete_comes_last);
      - a node's value is never delivered before its successful on_node_complete: a result is stored only after every
        manager has been told on_node_complete(node, error=None), and a body is invoked only after every manager has seen the
-       successful on_node_complete of each of its inputs (C14_on_plain_programs_values_follow_node_complete).
+       successful on_node_complete of each of its inputs (C14_on_plain_programs_values_follow_node_complete);
+     - on_node_start comes first for each node: every body invocation, first attempt or retry, comes after every manager's
+       on_node_start for that node (C14_on_plain_programs_node_start_comes_before_the_body).
    Decided on the implementation only (oracle on the merged event / body trace, every run): the identity of the PipelineResult
    object, the exact order start -> (complete(err))* -> final complete within one execution, and everything above on
    programs that are not plain. *)
@@ -63,7 +65,7 @@ Proof. vm_compute. repeat split; reflexivity. Qed.
 
 
 (* ---- kind F: all plain programs, all schedules, non-raising managers ---------------------------------------------------- *)
-From MLPE Require Import Proofs.PlainWorld Proofs.PlainLive Proofs.PlainCore Proofs.PlainDeadlock Proofs.PlainEvents Proofs.PlainPipe Proofs.PlainQuiet.
+From MLPE Require Import Proofs.PlainWorld Proofs.PlainLive Proofs.PlainCore Proofs.PlainDeadlock Proofs.PlainEvents Proofs.PlainNodeStart Proofs.PlainPipe Proofs.PlainQuiet.
 
 Definition managers_do_not_raise (P : prog) : Prop := forall m ev n k, p_mgr_fault P m ev n k = false.
 
@@ -84,6 +86,16 @@ Proof.
   - intros Ho Hm. exact (plain_bodies_start_after_announcement P HP Hnd Hnf st Hr Ho Hm).
 Qed.
 Print Assumptions C14_on_plain_programs_values_follow_node_complete.
+
+(* [start_ev m n] = on_node_start(n) seen by manager m: every body invocation of a node -- first attempt or retry -- comes after
+   every manager's on_node_start for that node *)
+Theorem C14_on_plain_programs_node_start_comes_before_the_body :
+  forall P, plain_prog P -> managers_do_not_raise P ->
+  forall st, reachable P st ->
+    forall a b i k kw, st_trace st = a ++ OStart i k kw :: b ->
+      exists nd, real_index nd = i /\ forall m, m < p_mgrs P -> In (start_ev m nd) b.
+Proof. exact plain_bodies_start_after_node_start. Qed.
+Print Assumptions C14_on_plain_programs_node_start_comes_before_the_body.
 
 (* [cnt (is_ps m)] / [cnt (is_pc m)] count the on_pipeline_start / on_pipeline_complete callbacks of manager m in the history *)
 Theorem C14_on_plain_programs_pipeline_events :
